@@ -162,7 +162,7 @@ Theorem C15_sw_render_partial it st text st' : sw_write_item uc cfg it st = Ok (
      forallb safe_sw (c15_sw_item_docs uc it)).
 Proof.
   intros H. destruct (Decomp_partial _ _ _ (sw_item_decomp _ _ _ _ H)) as (ps & Ht & Hd & Hc).
-  exists ps. rewrite c15_sites_docs in Hd. rewrite c15_sites_ok_false in Hc by discriminate. auto.
+  exists ps. rewrite c15_sites_text_line in Hd by discriminate. rewrite c15_sites_ok_false in Hc by discriminate. auto.
 Qed.
 
 (* the helper declaration end_file appends when () was translated: its one doc line is typeshare's own *)
